@@ -7,7 +7,7 @@ Case (JSON):
    "ops": [["r", v]                     register one observation; v = int or float.hex() string
            ["blk", gen, n, seed, a, b]  n observations expanded deterministically (see _expand) from integer seed
            ["init"]                     initialize()
-           ["bad", what]                rejected input: "nan" | "str" | "none" | "list" | "float" (counter only)
+           ["bad", what]                rejected input: "nan" | "str" | "none" | "list" | "float" (counter only) | "hugeint" | "neghugeint" (tally)
            ["ci", alphahex]]}           confidence_interval(alpha) compared at this point
 Every op is always applicable.  After EVERY op every public getter is called (totality + NaN structure); the full
 comparison with the exact oracle is made after every explicit op and at check-points inside blocks.
@@ -219,7 +219,7 @@ def strategy(tier):
         szs = st.sampled_from(sizes if big >= 7 else sizes[:6])
         rop = val.map(lambda v: ["r", v])
         bop = st.tuples(blk, szs, st.integers(0, 2 ** 32)).map(lambda t: ["blk", t[0][0], t[1], t[2], t[0][1], t[0][2]])
-        bad = st.sampled_from(["nan", "str", "none", "list"]).map(lambda w: ["bad", w])
+        bad = st.sampled_from(["nan", "str", "none", "list", "hugeint", "neghugeint"]).map(lambda w: ["bad", w])
         ci = st.one_of(st.sampled_from(_ALPHAS), st.floats(0.0, 1.0)).map(lambda a: ["ci", _hx(a)])
         op = st.one_of(rop, rop, rop, rop, rop, rop, bop, st.just(["init"]), bad, ci)
         ops = draw(st.lists(op, min_size=1, max_size=maxops))
@@ -423,6 +423,16 @@ def _check_structure(out, got, orc):
         if must_nan and not _isnan(g):
             out.fail("nan-structure:%s:expected-nan" % name,
                      {"got": _enc(g), "n": n, "zero_variance": zero})
+        elif not must_nan and _isnan(g) and n >= 2 and not zero and orc.in_range():
+            # NaN only where the quantity is undefined - also for data the accuracy comparison skips as
+            # ill-conditioned (large offset, small spread), as long as the exact variance is far from under/overflow
+            var_s = Fraction(orc.central()[0], n)                       # scaled units
+            var = var_s / (1 << (2 * orc.K))
+            big = max(abs(orc.mx), abs(orc.mn))
+            # (a spread near the rounding unit of the magnitude - sigma < 1e-12 |x| - legitimately computes as zero
+            #  variance, e.g. adjacent doubles; there NaN is the documented answer for 'variance zero')
+            if Fraction(1, 10 ** 100) <= var <= 10 ** 100 and var_s * 10 ** 24 >= big * big:
+                out.fail("nan-structure:%s:unexpected-nan" % name, {"n": n, "exact_variance": float(var)})
     for key, g in got.items():
         if isinstance(key, tuple) and g is not _RAISED:
             if not (isinstance(g, tuple) and len(g) == 2):
@@ -588,7 +598,8 @@ def _all_values(case):
 
 
 def _bad_value(what):
-    return {"nan": math.nan, "str": "1.0", "none": None, "list": [1.0], "float": 1.0}[what]
+    return {"nan": math.nan, "str": "1.0", "none": None, "list": [1.0], "float": 1.0,
+            "hugeint": 10 ** 400, "neghugeint": -(10 ** 310)}[what]       # ints beyond the float range
 
 
 def run_case(case):
@@ -702,16 +713,19 @@ def run_case(case):
             bad = _bad_value(op[1] if op[1] != "float" else "nan")
             before = _snapshot(stat, False)
             want = ValueError if isinstance(bad, float) else TypeError
+            if isinstance(bad, int):
+                # an int that no float can hold cannot be registered; which error reports it is not documented
+                want = (ValueError, TypeError, OverflowError)
             try:
                 feed(bad)
-                out.fail("reject:accepted", {"input": repr(bad), "n": orc.n})
+                out.fail("reject:accepted", {"input": repr(bad)[:40], "n": orc.n})
             except want:
                 pass
             except Exception as e:                                # noqa: BLE001
-                out.fail("reject:wrong-exception", {"input": repr(bad), "error": repr(e), "want": want.__name__})
+                out.fail("reject:wrong-exception", {"input": repr(bad)[:40], "error": repr(e), "want": str(want)})
             after = _snapshot(stat, False)
             if before != after:
-                out.fail("reject:state-changed", {"input": repr(bad), "before": before, "after": after})
+                out.fail("reject:state-changed", {"input": repr(bad)[:40], "before": before, "after": after})
             lab.add("rejected-input")
         elif name == "ci":
             a = _dec(op[1])
